@@ -264,6 +264,7 @@ pub struct ConnCfg {
     pub fail_write_at: Option<usize>,
     pub write_pending_polls: usize,
     pub read_err_kind: u8,
+    pub write_err_kind: u8,
 }
 
 #[derive(Debug, Clone, Default)]
@@ -598,6 +599,7 @@ pub fn run_world(cfg: &WorldCfg) -> WorldOut {
                 wb.fail_write_at = cfg.conns[i].fail_write_at;
                 wb.write_pending_polls = cfg.conns[i].write_pending_polls;
                 wb.err_kind = cfg.conns[i].read_err_kind;
+                wb.write_err_kind = cfg.conns[i].write_err_kind;
                 wb.coop = budget.clone();
             }
             w
@@ -924,6 +926,8 @@ pub struct ConnScn {
     pub faulty: bool,
     /// which error kind an injected read error produces (see `vnet::Wire::err_kind`)
     pub read_err_kind: u8,
+    /// which error kind a failing write produces (see `vnet::Wire::write_err_kind`)
+    pub write_err_kind: u8,
     /// Stray terminators: `(k, m)` = `m` extra NUL bytes (empty frames) directly behind the frame of call `k`.
     /// An empty frame is not a message; zlink skips it. (A server that ended the connection there would be
     /// within the property as well, see `check_reference`.)
@@ -986,7 +990,7 @@ impl Scenario {
                 .conns
                 .iter()
                 .enumerate()
-                .map(|(i, c)| ConnCfg { chunks: c.chunks(i as u32), fail_write_at: c.fail_write_at, write_pending_polls: c.write_pending_polls, read_err_kind: c.read_err_kind })
+                .map(|(i, c)| ConnCfg { chunks: c.chunks(i as u32), fail_write_at: c.fail_write_at, write_pending_polls: c.write_pending_polls, read_err_kind: c.read_err_kind, write_err_kind: c.write_err_kind })
                 .collect(),
             steps: self.steps.clone(),
             wake: self.wake,
@@ -1003,7 +1007,7 @@ impl Scenario {
                 "calls": c.calls.iter().map(|k| json!([match k.kind { Kind::Echo => "echo", Kind::Fail => "fail", Kind::Sub => "sub" }, k.seq, k.oneway, k.more, k.payload])).collect::<Vec<_>>(),
                 "raw": c.raw.as_ref().map(|r| hexs(r)),
                 "raw_text": c.raw.as_ref().map(|r| vnet::json::show(r)),
-                "cuts": c.cuts, "fail_write_at": c.fail_write_at, "wpp": c.write_pending_polls, "faulty": c.faulty, "rek": c.read_err_kind, "stray": c.stray,
+                "cuts": c.cuts, "fail_write_at": c.fail_write_at, "wpp": c.write_pending_polls, "faulty": c.faulty, "rek": c.read_err_kind, "wek": c.write_err_kind, "stray": c.stray,
             })).collect::<Vec<_>>(),
             "steps": steps_json(&self.steps),
             "wake": self.wake,
@@ -1029,6 +1033,7 @@ impl Scenario {
                 write_pending_polls: c["wpp"].as_u64().unwrap_or(0) as usize,
                 faulty: c["faulty"].as_bool().unwrap_or(false),
                 read_err_kind: c["rek"].as_u64().unwrap_or(0) as u8,
+                write_err_kind: c["wek"].as_u64().unwrap_or(0) as u8,
                 stray: c["stray"].as_array().map_or(Vec::new(), |a| a.iter().map(|x| (x[0].as_u64().unwrap() as usize, x[1].as_u64().unwrap() as usize)).collect()),
             }).collect(),
             steps: steps_from_json(&v["steps"]),
@@ -1047,7 +1052,7 @@ impl Scenario {
                 h = vnet::fnv_mix(h, *x as u64);
             }
             h = vnet::fnv_mix(h, c.fail_write_at.map_or(u64::MAX, |x| x as u64));
-            h = vnet::fnv_mix(h, c.write_pending_polls as u64 + ((c.read_err_kind as u64) << 8));
+            h = vnet::fnv_mix(h, c.write_pending_polls as u64 + ((c.read_err_kind as u64) << 8) + ((c.write_err_kind as u64) << 12));
         }
         if self.wake {
             h = vnet::fnv_mix(h, 0x77616b65);
@@ -1081,7 +1086,7 @@ impl Scenario {
                     None => format!("[{}]", c.calls.iter().map(|k| k.short()).collect::<Vec<_>>().join(" ")),
                 },
                 c.cuts,
-                c.fail_write_at.map_or(String::new(), |k| format!(" fail_write_at={k}")) + &(if c.stray.is_empty() { String::new() } else { format!(" stray-terminators(behind call index, count)={:?}", c.stray) }),
+                c.fail_write_at.map_or(String::new(), |k| format!(" fail_write_at={k}(error kind {})", c.write_err_kind)) + &(if c.stray.is_empty() { String::new() } else { format!(" stray-terminators(behind call index, count)={:?}", c.stray) }),
                 if c.write_pending_polls > 0 { format!(" wpp={}", c.write_pending_polls) } else { String::new() },
             ));
         }
